@@ -225,7 +225,10 @@ func (e *Environment) makeRef(name string) (*Reference, bool) {
 			ref = r // set and return the original ref instead of ref of ref.
 		}
 		orig.store[name] = ref
-		if !Constant(name) && obj.Type() != FUNC {
+		// Only a constant of the top level scope is the same for every call of a function: a "constant" of an
+		// enclosing function call (N in mk=func(N){()=>N+1}) differs from call to call.
+		constantAtRoot := Constant(name) && ref.RefEnv.depth == 0
+		if !constantAtRoot && obj.Type() != FUNC {
 			orig.getMiss++ // creating a ref to a non constant is a miss.
 			log.Debugf("makeRef(%s) GETMISS %d", name, orig.getMiss)
 		}
@@ -255,7 +258,7 @@ func (e *Environment) Get(name string) (Object, bool) {
 				// The referenced variable was deleted meanwhile: forget the stale reference and look the name up again.
 				delete(e.store, name)
 				ok = false
-			} else if !Constant(r.Name) && r.ObjValue().Type() != FUNC {
+			} else if !(Constant(r.Name) && r.RefEnv.depth == 0) && r.ObjValue().Type() != FUNC {
 				// using references to non constant (extensions are constants) implies uncacheable.
 				e.getMiss++
 				log.Debugf("get(%s) GETMISS %d", name, e.getMiss)
